@@ -23,7 +23,8 @@ impl OutputFormat for Ascii {
     fn to_bytes(&self, buf: &crate::Buffer, options: &SaveOptions) -> EngineResult<Vec<u8>> {
         let mut result = Vec::new();
         let mut pos = Position::default();
-        let height = buf.get_line_count();
+        // rows that are allocated below the canvas (a layer can hold more lines than the buffer is high) are not part of the picture
+        let height = buf.get_line_count().min(buf.get_height());
 
         while pos.y < height {
             let line_length = buf.get_line_length(pos.y);
